@@ -102,9 +102,16 @@ def _pure(e):
 
 
 def _contains_return(node):
-    for x in ast.walk(node):
+    # returns of nested functions are their own
+    stack = [node]
+    while stack:
+        x = stack.pop()
         if isinstance(x, ast.Return):
             return True
+        for c in ast.iter_child_nodes(x):
+            if isinstance(c, (ast.FunctionDef, ast.AsyncFunctionDef, ast.Lambda)):
+                continue
+            stack.append(c)
     return False
 
 
@@ -223,15 +230,32 @@ def _classify(fn, method, nested, known=None):
         return None
     gen = bool(fn.decorator_list)
     rets = []
+    # nested functions / lambdas travel with the body when their own parameters cannot capture a substituted name
+    own_names = set(params) | set(x.id for b in body for x in ast.walk(b) if isinstance(x, ast.Name) and isinstance(x.ctx, ast.Store))
+    inner_nodes = set()
     for b in body:
         for x in ast.walk(b):
-            if isinstance(x, (ast.FunctionDef, ast.AsyncFunctionDef, ast.Lambda, ast.ClassDef, ast.Global, ast.Nonlocal, ast.Await, ast.YieldFrom, ast.NamedExpr)):
+            if isinstance(x, (ast.FunctionDef, ast.AsyncFunctionDef, ast.Lambda)) and x is not fn:
+                ia = x.args
+                inames = set(y.arg for y in ia.args + ia.kwonlyargs + getattr(ia, 'posonlyargs', [])) | set(y.arg for y in (ia.vararg, ia.kwarg) if y is not None)
+                if inames & own_names or (not isinstance(x, ast.Lambda) and (x.name in own_names or x.decorator_list)):
+                    return None
+                for y in ast.walk(x):
+                    if y is not x:
+                        inner_nodes.add(id(y))
+    for b in body:
+        for x in ast.walk(b):
+            if id(x) in inner_nodes:
+                if isinstance(x, (ast.Global, ast.Nonlocal, ast.ClassDef)):
+                    return None
+                continue
+            if isinstance(x, (ast.AsyncFunctionDef, ast.ClassDef, ast.Global, ast.Nonlocal, ast.Await, ast.YieldFrom, ast.NamedExpr)):
                 return None
             if isinstance(x, ast.Yield) and not gen:
                 return None
             if isinstance(x, ast.Name) and isinstance(x.ctx, ast.Del) and x.id in params:
                 return None
-            if isinstance(x, ast.Return):
+            if isinstance(x, ast.Return) and id(x) not in inner_nodes:
                 rets.append(x)
             # recursion
             if isinstance(x, ast.Call):
@@ -389,6 +413,28 @@ class _Inliner(ast.NodeTransformer):
             _relocate([ret], at)
         return out, ret
 
+    def _hoist_arg(self, st, outer):
+        """`f(a, helper(x))` as the value of a statement: the helper's body runs first when everything evaluated before it
+        (the callee expression, the earlier arguments) is pure; returns the statements to put in front, or None"""
+        if not isinstance(outer, ast.Call) or outer.keywords or not _simple(outer.func):
+            return None
+        for i, a in enumerate(outer.args):
+            h, m = self._helper_for(a, False)
+            if h is None or h.kind not in ('STMT_RET', 'STRUCT'):
+                continue
+            if not all(_pure(b) for b in outer.args[:i]):
+                return None
+            body, ret = self._expand(h, m, st)
+            if not isinstance(ret, ast.Name) and not _pure(ret):
+                rn = '%s__result' % h.name.strip('_')
+                body = body + [ast.copy_location(ast.Assign(targets=[ast.Name(id=rn, ctx=ast.Store())], value=ret), st)]
+                ret = ast.Name(id=rn, ctx=ast.Load())
+            outer.args[i] = ret
+            for b in body:
+                ast.fix_missing_locations(b)
+            return body
+        return None
+
     def visit_Expr(self, st):
         v = st.value
         gen_site = isinstance(v, ast.Yield) and v.value is not None
@@ -397,8 +443,9 @@ class _Inliner(ast.NodeTransformer):
         if h is not None and h.kind in ('STMT', 'STMT_RET', 'STRUCT') and (not gen_site or self.caller_gen):
             body, ret = self._expand(h, m, st)
             return body or [ast.copy_location(ast.Pass(), st)]
+        pre = self._hoist_arg(st, call if not gen_site else None)
         self.generic_visit(st)
-        return st
+        return (pre + [st]) if pre else st
 
     def visit_Assign(self, st):
         v = st.value
@@ -408,8 +455,9 @@ class _Inliner(ast.NodeTransformer):
         if h is not None and h.kind in ('STMT_RET', 'STRUCT') and (not gen_site or self.caller_gen):
             body, ret = self._expand(h, m, st)
             return body + [ast.copy_location(ast.Assign(targets=st.targets, value=ret), st)]
+        pre = self._hoist_arg(st, call if not gen_site else None)
         self.generic_visit(st)
-        return st
+        return (pre + [st]) if pre else st
 
     def visit_Return(self, st):
         v = st.value
@@ -417,8 +465,9 @@ class _Inliner(ast.NodeTransformer):
         if h is not None and h.kind in ('STMT_RET', 'STRUCT'):
             body, ret = self._expand(h, m, st)
             return body + [ast.copy_location(ast.Return(value=ret), st)]
+        pre = self._hoist_arg(st, v)
         self.generic_visit(st)
-        return st
+        return (pre + [st]) if pre else st
 
     def visit_If(self, st):
         # `if [not] helper(args):` with a statement helper that returns a value: run the body first, test its result
@@ -1222,3 +1271,199 @@ def force_inline(caller_fn, helper_fn, method=True):
         return None
     ast.fix_missing_locations(fn)
     return fn
+
+
+
+def deproperty(trees, ref):
+    """A *private* read-only property the reference does not have as a property (new, or a method turned into one) is seen as the
+    method it stands for: the decorator is dropped and every plain read `x._name` in the module becomes the call `x._name()`.
+    Nothing else changes, so the body is evaluated at the same moments; afterwards the usual pairing / inlining applies."""
+    done = []
+    for mname, tree in trees.items():
+        rm = (ref or {}).get(mname, {}).get('classes', {})
+        names = {}
+        stored = set()
+        for n in ast.walk(tree):
+            if isinstance(n, ast.Attribute) and isinstance(n.ctx, (ast.Store, ast.Del)):
+                stored.add(n.attr)
+        for cls in [c for c in tree.body if isinstance(c, ast.ClassDef)]:
+            setters = set()
+            for fn in cls.body:
+                if isinstance(fn, ast.FunctionDef):
+                    for d in fn.decorator_list:
+                        if isinstance(d, ast.Attribute) and d.attr in ('setter', 'deleter') and isinstance(d.value, ast.Name):
+                            setters.add(d.value.id)
+            for fn in cls.body:
+                if not isinstance(fn, ast.FunctionDef) or not fn.name.startswith('_') or fn.name.startswith('__'):
+                    continue
+                if not any(isinstance(d, ast.Name) and d.id == 'property' for d in fn.decorator_list) or len(fn.decorator_list) != 1:
+                    continue
+                if fn.name in setters or fn.name in stored or len(fn.args.args) != 1:
+                    continue
+                if fn.name in rm.get(cls.name, {}).get('props', ()):
+                    continue
+                names.setdefault(fn.name, []).append((cls, fn))
+        if not names:
+            continue
+        for nm, sites in names.items():
+            for cls, fn in sites:
+                fn.decorator_list = []
+                done.append((mname, cls.name + '.' + nm))
+
+        class T(ast.NodeTransformer):
+            def visit_Call(self, node):
+                # already a call of something else: visit the parts, but leave a direct `x._name(...)` alone (cannot occur for a property)
+                node.args = [self.visit(a) for a in node.args]
+                node.keywords = [self.visit(k) for k in node.keywords]
+                if isinstance(node.func, ast.Attribute) and node.func.attr in names:
+                    inner = ast.Call(func=ast.Attribute(value=self.visit(node.func.value), attr=node.func.attr, ctx=ast.Load()), args=[], keywords=[])
+                    node.func = ast.copy_location(inner, node.func)
+                else:
+                    node.func = self.visit(node.func)
+                return node
+
+            def visit_Attribute(self, node):
+                node.value = self.visit(node.value)
+                if node.attr in names and isinstance(node.ctx, ast.Load):
+                    return ast.copy_location(ast.Call(func=node, args=[], keywords=[]), node)
+                return node
+        T().visit(tree)
+        ast.fix_missing_locations(tree)
+    return done
+
+
+
+def _subst_names(node, mapping):
+    class S(ast.NodeTransformer):
+        def visit_Name(self, n):
+            if isinstance(n.ctx, ast.Load) and n.id in mapping:
+                return copy.deepcopy(mapping[n.id])
+            return n
+    return S().visit(copy.deepcopy(node))
+
+
+def _bind_target(target, value):
+    """{name: expr} for binding a (possibly nested tuple) target to a literal value expression, or None"""
+    if isinstance(target, ast.Name):
+        return {target.id: value}
+    if isinstance(target, (ast.Tuple, ast.List)) and isinstance(value, (ast.Tuple, ast.List)) and len(target.elts) == len(value.elts) \
+            and not any(isinstance(e, ast.Starred) for e in list(target.elts) + list(value.elts)):
+        out = {}
+        for t, v in zip(target.elts, value.elts):
+            b = _bind_target(t, v)
+            if b is None:
+                return None
+            out.update(b)
+        return out
+    return None
+
+
+def unroll_literal_tables(trees):
+    """Registration written as data is seen as the statements it stands for:
+         [f(a, b) for (a, b) in [(x1, y1), (x2, y2)]]      ->  [f(x1, y1), f(x2, y2)]      (no condition, literal rows)
+         for (s, rows) in TABLE: s.add(rows)               ->  one copy of the body per row (TABLE a literal list of tuples, possibly a
+                                                               local bound once just before; body without break/continue/return)
+       Only tables of *tuples* are unrolled (a row per registration), at most 16 rows, and only when every row element is a pure
+       expression, so evaluation order and effects are unchanged."""
+    n = 0
+
+    def literal_rows(e):
+        if isinstance(e, (ast.List, ast.Tuple)) and e.elts and len(e.elts) <= 16 and all(isinstance(r, (ast.Tuple, ast.List)) for r in e.elts):
+            return e.elts
+        return None
+
+    def rows_pure(rows):
+        for r in rows:
+            for x in ast.walk(r):
+                if isinstance(x, (ast.Call, ast.Yield, ast.YieldFrom, ast.Await, ast.NamedExpr)):
+                    return False
+        return True
+
+    class Comp(ast.NodeTransformer):
+        def visit_ListComp(self, node):
+            self.generic_visit(node)
+            nonlocal n
+            if len(node.generators) == 1 and not node.generators[0].ifs and not node.generators[0].is_async:
+                g = node.generators[0]
+                rows = literal_rows(g.iter)
+                if rows is not None and rows_pure(rows):
+                    elts = []
+                    for r in rows:
+                        b = _bind_target(g.target, r)
+                        if b is None:
+                            return node
+                        elts.append(_subst_names(node.elt, b))
+                    n += 1
+                    return ast.copy_location(ast.List(elts=elts, ctx=ast.Load()), node)
+            return node
+
+    def unroll_block(stmts, fn):
+        nonlocal n
+        out = []
+        for i, st in enumerate(stmts):
+            for fld in ('body', 'orelse', 'finalbody'):
+                if isinstance(getattr(st, fld, None), list) and not isinstance(st, (ast.FunctionDef, ast.AsyncFunctionDef, ast.ClassDef)):
+                    setattr(st, fld, unroll_block(getattr(st, fld), fn))
+            for h in getattr(st, 'handlers', []) or []:
+                h.body = unroll_block(h.body, fn)
+            if isinstance(st, ast.For) and not st.orelse:
+                it = st.iter
+                drop = None
+                if isinstance(it, ast.Name) and out and isinstance(out[-1], ast.Assign) and len(out[-1].targets) == 1 and isinstance(out[-1].targets[0], ast.Name) \
+                        and out[-1].targets[0].id == it.id:
+                    uses = sum(1 for x in ast.walk(fn) if isinstance(x, ast.Name) and x.id == it.id)
+                    if uses == 2:
+                        drop, it = out[-1], out[-1].value
+                rows = literal_rows(it)
+                if rows is not None and rows_pure(rows) and not any(isinstance(x, (ast.Break, ast.Continue, ast.Return, ast.FunctionDef, ast.Lambda)) for b in st.body for x in ast.walk(b)):
+                    tnames = set(x.id for x in ast.walk(st.target) if isinstance(x, ast.Name))
+                    reassigned = any(isinstance(x, ast.Name) and isinstance(x.ctx, ast.Store) and x.id in tnames for b in st.body for x in ast.walk(b))
+                    used_after = any(isinstance(x, ast.Name) and x.id in tnames for later in stmts[i + 1:] for x in ast.walk(later))
+                    binds = [_bind_target(st.target, r) for r in rows]
+                    if not reassigned and not used_after and all(b is not None for b in binds):
+                        if drop is not None:
+                            out.pop()
+                        for b in binds:
+                            for bst in st.body:
+                                out.append(ast.copy_location(_subst_names(bst, b), st))
+                        n += 1
+                        continue
+            out.append(st)
+        return out
+    for tree in trees.values():
+        if not any(isinstance(x, (ast.For, ast.ListComp)) for x in ast.walk(tree)):
+            continue
+        for fn in [x for x in ast.walk(tree) if isinstance(x, (ast.FunctionDef, ast.AsyncFunctionDef))]:
+            before = n
+            fn.body = unroll_block(fn.body, fn)
+            if n != before:
+                Comp().visit(fn)
+        Comp().visit(tree)
+        ast.fix_missing_locations(tree)
+    return n
+
+
+
+def destatic(trees, ref):
+    """a *new* private @staticmethod that is only ever called as `self._h(...)` is seen as the method it could as well be
+    (an explicit `self` parameter it does not use); the inliner then treats it like any other private helper"""
+    done = []
+    for mname, tree in trees.items():
+        rm = (ref or {}).get(mname, {}).get('classes', {})
+        for cls in [c for c in tree.body if isinstance(c, ast.ClassDef)]:
+            for fn in [f for f in cls.body if isinstance(f, ast.FunctionDef)]:
+                if not fn.name.startswith('_') or fn.name.startswith('__') or fn.name in rm.get(cls.name, {}).get('methods', {}):
+                    continue
+                if len(fn.decorator_list) != 1 or not (isinstance(fn.decorator_list[0], ast.Name) and fn.decorator_list[0].id == 'staticmethod'):
+                    continue
+                if any(a.arg == 'self' for a in fn.args.args) or any(isinstance(x, ast.Name) and x.id == 'self' for x in ast.walk(fn)):
+                    continue
+                refs = [x for x in ast.walk(tree) if isinstance(x, ast.Attribute) and x.attr == fn.name]
+                calls = set(id(c.func) for c in ast.walk(tree) if isinstance(c, ast.Call))
+                if not refs or not all(isinstance(r.value, ast.Name) and r.value.id == 'self' and id(r) in calls for r in refs):
+                    continue
+                fn.decorator_list = []
+                fn.args.args.insert(0, ast.arg(arg='self'))
+                done.append((mname, cls.name + '.' + fn.name))
+        ast.fix_missing_locations(tree)
+    return done
